@@ -1,5 +1,6 @@
 (** C14 — Scheduler accounting equals ground truth recomputed from pods.
-    Statements only; proofs are in Proofs/Node.v.
+    Statements only; proofs are in Proofs/Node.v, Proofs/NodeFull.v (node clause) and
+    Proofs/JobBooks.v (workload clause: the last part of this file).
 
     [run n0 ops] applies a list of AddTask / RemoveTask / UpdateTask operations
     to a node, skipping the ones the code rejects (the callers log and ignore
@@ -15,6 +16,7 @@
     second charge for the same pod. *)
 From Coq Require Import List ZArith PArith.
 From KaiV Require Import Model.Res Model.Status Model.AMap Model.Node Model.NodeSpec Proofs.Node Proofs.NodeFull.
+From KaiV Require Import Model.JobBooks Proofs.JobBooks.
 Import ListNotations.
 
 (** Non-vacuity / finding witness: on a 4-GPU node the device-count guard
@@ -344,3 +346,146 @@ Theorem C14_full_books_nonvacuous :
   /\ books_ok true (run nv_node fv_ops) (tasks_of (run nv_node fv_ops)) = true.
 Proof. exact full_books_run_nonvacuous. Qed.
 Print Assumptions C14_full_books_nonvacuous.
+
+
+(** * Workload clause: pod group and pod set counters (Model/JobBooks.v, Proofs/JobBooks.v)
+
+    [jrun (jb_init mins) ops] applies a history of AddTaskInfo / UpdateTaskStatus / removal operations to an
+    empty pod group whose pod sets have the minimums [mins].  [legal]: a pod is added once and
+    UpdateTaskStatus is handed an object carrying the status the pod group has for that pod (what the
+    scheduler does).  [pods_of j] are the pods the workload holds; [rc_*] recompute from them. *)
+
+(** After ANY legal history every incremental counter of the workload - activeAllocatedCount, the size of
+    PodStatusIndex under each of the 12 statuses, Allocated in both representations, and per pod set
+    numActiveAllocatedTasks / numActiveUsedTasks / numAliveTasks and the sizes of podStatusIndex - equals its
+    recomputation from the pods and their statuses (executable form, the check the monitor runs). *)
+Theorem C14_job_counters_exact : forall (mins : amap Z) (ops : list jop),
+  legal (jb_init mins) ops = true -> books_okb (jrun (jb_init mins) ops) = true.
+Proof. exact job_counters_exact. Qed.
+Print Assumptions C14_job_counters_exact.
+
+(** the same, spelled out *)
+Theorem C14_job_counters_exact_unfolded : forall (mins : amap Z) (ops : list jop),
+  legal (jb_init mins) ops = true ->
+  let j := jrun (jb_init mins) ops in
+  let l := pods_of j in
+  jb_active j = rc_active l
+  /\ (forall s, ix_size s (jb_idx j) = rc_size s l)
+  /\ jb_alloc j = rc_alloc l /\ jb_allocv j = rc_allocv l
+  /\ (forall k ps, alookup k (jb_psets j) = Some ps ->
+        let lk := filter (in_pset k) l in
+        pb_aa ps = rc_active lk /\ pb_au ps = rc_used lk /\ pb_alive ps = rc_alive lk
+        /\ forall s, ix_size s (pb_idx ps) = rc_size s lk).
+Proof. exact job_counters_exact_unfolded. Qed.
+Print Assumptions C14_job_counters_exact_unfolded.
+
+(** from any consistent state (a snapshot), not only from the empty pod group *)
+Theorem C14_job_counters_exact_from_consistent_state : forall (j : jobb) (ops : list jop),
+  Inv j -> legal j ops = true -> books_okb (jrun j ops) = true.
+Proof. exact job_counters_exact_from. Qed.
+Print Assumptions C14_job_counters_exact_from_consistent_state.
+
+(** PodStatusIndex holds under each status exactly the pods that have it (members, not only counts) *)
+Theorem C14_job_index_members : forall (mins : amap Z) (ops : list jop) (s : status) (id : positive),
+  legal (jb_init mins) ops = true ->
+  let j := jrun (jb_init mins) ops in
+  In (s, id) (jb_idx j) <-> exists p, In p (pods_of j) /\ jp_id p = id /\ jp_status p = s.
+Proof. exact job_index_members. Qed.
+Print Assumptions C14_job_index_members.
+
+(** structured and vector representation of Allocated agree when they agree pod by pod *)
+Theorem C14_job_vector_agrees : forall (mins : amap Z) (ops : list jop),
+  legal (jb_init mins) ops = true ->
+  let j := jrun (jb_init mins) ops in
+  Forall (fun p => jp_req p = jp_reqv p) (pods_of j) -> jb_alloc j = jb_allocv j.
+Proof. exact job_vector_agrees. Qed.
+Print Assumptions C14_job_vector_agrees.
+
+(** the gang predicates read off a pod set's counters are the ones computed from its pods *)
+Theorem C14_job_gang_predicates : forall (mins : amap Z) (ops : list jop) (k : positive) (ps : psetb),
+  legal (jb_init mins) ops = true ->
+  let j := jrun (jb_init mins) ops in
+  alookup k (jb_psets j) = Some ps ->
+  let lk := filter (in_pset k) (pods_of j) in
+  ps_gang_satisfied ps = (pb_min ps <=? rc_used lk)%Z
+  /\ ps_ready ps = (pb_min ps <=? rc_alive lk - rc_size Gated lk)%Z
+  /\ ps_num_pending ps = rc_size Pending lk.
+Proof. exact job_gang_predicates. Qed.
+Print Assumptions C14_job_gang_predicates.
+
+(** UpdateTaskStatus is the removal of the pod followed by AddTaskInfo with the new status (whatever the
+    decrement test and the passed status are) *)
+Theorem C14_job_update_is_remove_then_add :
+  forall (dec : status -> bool) (id : positive) (passed new : status) (cur : jpod) (j : jobb),
+  sorted_keys (jb_pods j) -> alookup id (jb_pods j) = Some cur -> jp_id cur = id ->
+  amem (jp_pset cur) (jb_psets j) = true ->
+  update_task_status_g dec id passed new j
+  = (add_task_info (jp_with cur new) (fst (remove_task_g dec id passed j)), false).
+Proof. exact update_is_remove_then_add. Qed.
+Print Assumptions C14_job_update_is_remove_then_add.
+
+(** Refuted for the variant of deleteTaskIndex that decrements only when the pod leaves an ALLOCATED status
+    (it forgets Pipelined): add a Pending pod, nominate it, take the nomination back - the counter says 1,
+    no pod is active-allocated; the code ([jrun]) is exact on the same history. *)
+Theorem C14_job_asymmetric_decrement_refuted :
+  legal_g allocated_status (jb_init w_mins) asym_history = true
+  /\ legal (jb_init w_mins) asym_history = true
+  /\ books_okb (run_g allocated_status (jb_init w_mins) asym_history) = false
+  /\ jb_active (run_g allocated_status (jb_init w_mins) asym_history) = 1%Z
+  /\ rc_active (pods_of (run_g allocated_status (jb_init w_mins) asym_history)) = 0%Z
+  /\ books_okb (jrun (jb_init w_mins) asym_history) = true
+  /\ jb_active (jrun (jb_init w_mins) asym_history) = 0%Z.
+Proof. exact asymmetric_decrement_refuted. Qed.
+Print Assumptions C14_job_asymmetric_decrement_refuted.
+
+(** ... and drifts by one more with every further nominate / un-nominate round *)
+Theorem C14_job_asymmetric_decrement_drifts : forall n : nat,
+  jb_active (run_g allocated_status (jb_init w_mins) (JAdd (w_pod 1 Pending) :: rounds n)) = Z.of_nat n
+  /\ rc_active (pods_of (run_g allocated_status (jb_init w_mins) (JAdd (w_pod 1 Pending) :: rounds n))) = 0%Z.
+Proof. exact asymmetric_decrement_drifts. Qed.
+Print Assumptions C14_job_asymmetric_decrement_drifts.
+
+(** The decrement test of deleteTaskIndex is determined by the increment test of addTaskIndex: the books
+    stay exact along every legal history iff the two tests are the same predicate on all 12 statuses. *)
+Theorem C14_job_decrement_test_unique : forall dec : status -> bool,
+  (forall mins ops, legal_g dec (jb_init mins) ops = true -> books_okb (run_g dec (jb_init mins) ops) = true)
+  <-> (forall s, dec s = active_allocated s).
+Proof. exact decrement_test_unique. Qed.
+Print Assumptions C14_job_decrement_test_unique.
+
+(** [legal] is needed: UpdateTaskStatus handed a copy whose Status is stale leaves the pod indexed under its
+    old status as well (the index is keyed by the passed status) ... *)
+Theorem C14_job_stale_status_refuted :
+  legal (jb_init w_mins) stale_history = false
+  /\ books_okb (jrun (jb_init w_mins) stale_history) = false
+  /\ ix_size Pipelined (jb_idx (jrun (jb_init w_mins) stale_history)) = 1%Z
+  /\ rc_size Pipelined (pods_of (jrun (jb_init w_mins) stale_history)) = 0%Z
+  /\ ix_size Releasing (jb_idx (jrun (jb_init w_mins) stale_history)) = 1%Z
+  /\ jb_active (jrun (jb_init w_mins) stale_history) = rc_active (pods_of (jrun (jb_init w_mins) stale_history)).
+Proof. exact stale_status_refuted. Qed.
+Print Assumptions C14_job_stale_status_refuted.
+
+(** ... and AddTaskInfo twice for the same pod counts it twice at pod-group level. *)
+Theorem C14_job_double_add_refuted :
+  legal (jb_init w_mins) double_add_history = false
+  /\ books_okb (jrun (jb_init w_mins) double_add_history) = false
+  /\ jb_active (jrun (jb_init w_mins) double_add_history) = 2%Z
+  /\ rc_active (pods_of (jrun (jb_init w_mins) double_add_history)) = 1%Z
+  /\ gpu (jb_alloc (jrun (jb_init w_mins) double_add_history)) = 2%Z.
+Proof. exact double_add_refuted. Qed.
+Print Assumptions C14_job_double_add_refuted.
+
+(** Non-vacuity: a legal history over two pod sets through nomination, eviction, un-eviction, binding, an
+    update of a pod the job does not hold, a removal and a completion. *)
+Theorem C14_job_counters_nonvacuous :
+  legal (jb_init nv_mins) nv_history = true
+  /\ map (fun p => (jp_id p, jp_status p)) (pods_of (jrun (jb_init nv_mins) nv_history))
+     = [(1%positive, Succeeded); (2%positive, Pipelined); (4%positive, Binding)]
+  /\ jb_active (jrun (jb_init nv_mins) nv_history) = 2%Z
+  /\ gpu (jb_alloc (jrun (jb_init nv_mins) nv_history)) = 1%Z
+  /\ is_gang_satisfied (jrun (jb_init nv_mins) nv_history) = false
+  /\ should_pipeline (jrun (jb_init nv_mins) nv_history) = true
+  /\ is_stale (jrun (jb_init nv_mins) nv_history) = false
+  /\ books_okb (jrun (jb_init nv_mins) nv_history) = true.
+Proof. exact job_counters_nonvacuous. Qed.
+Print Assumptions C14_job_counters_nonvacuous.
